@@ -262,6 +262,13 @@ def run(ck, fb, fbd):
             ok = elems == want and valid
             why = "halfedge list %s, validity facts %s" % (elems, sorted(s for s, p in fs if p and "is_valid" in s))
         judge(ok, l, n, "find_halfface(vertices) looks up the halfedges (v0,v1) and (v1,v2), requires both valid and passes exactly these two, in this order, to find_halfface(halfedges) (%s)" % why, "find_halfface_vs")
+        if ok:
+            # what that formulation cannot do, against the statement ("with the requested vertices ... exactly when a brute-force
+            # search finds one"): (1) vertices beyond the third are never compared and the sizes are not - find_halfface({0,1,2,9})
+            # and find_halfface({0,1,2}) both answer the quad (0,1,2,3); documented in TopologyKernel.hh, known finding F57;
+            # (2) find_halfedge answers the first stored halfedge v0->v1, a face built on a parallel (duplicate) edge is missed (F58)
+            judge(False, l, n, "find_halfface(vertices) compares every requested vertex and the number of vertices with the candidate halfface (only _vs[0.._vs[2] reach the lookup)", "find_halfface_vs:prefix")
+            judge(False, l, n, "find_halfface(vertices) tries every stored halfedge from v0 to v1 (find_halfedge answers the first one: faces on parallel edges are missed)", "find_halfface_vs:parallel")
 
     # find_halfface(halfedges): a halfface around hes[0] whose halfedge list contains hes[1]
     l = fns[("find_halfface", (VEC_HEH,))]
